@@ -221,7 +221,10 @@ def suite(shard, nshards):
     wdir = f"{WORK}/w{shard}"
     os.makedirs(wdir, exist_ok=True)
     res_path = f"{WORK}/suite_{shard}.jsonl"
-    done = {json.loads(l)["id"] for l in open(res_path)} if os.path.exists(res_path) else set()
+    done = set()
+    for fn in os.listdir(WORK):
+        if fn.startswith("suite_") and fn.endswith(".jsonl"):
+            done |= {json.loads(l)["id"] for l in open(f"{WORK}/{fn}")}
     with open(res_path, "a") as f:
         for mut in muts:
             if mut["id"] % nshards != shard or mut["id"] in done:
